@@ -115,6 +115,24 @@ struct RefTable
   int nrole(int T) const { auto it = roles.find(T); return it == roles.end() ? 0 : (int)it->second.size(); }
   void setc(int i, int e, double v) { if (i >= 0 && i < ncol() && e >= 0 && e < nech) { cols[i].v[e] = v; cols[i].unspec[e] = 0; } }
   void adopt(int i, int e) { if (i >= 0 && i < ncol() && e >= 0 && e < nech) cols[i].unspec[e] = 1; }
+  std::vector<int> expand(const std::vector<std::string>& pats) const
+  {
+    std::vector<int> out;
+    auto push = [&](int i) { for (int o : out) if (o == i) return; out.push_back(i); };
+    for (auto& p : pats)
+    {
+      int lit = idxOfName(p);
+      if (lit >= 0) { push(lit); continue; }
+      std::string r = p;
+      size_t f = r.find('*');
+      if (f != std::string::npos && (f == 0 || r[f - 1] != '.')) r.insert(f, ".");
+      static std::map<std::string, std::regex> compiled;   // compiling a std::regex is the expensive part
+      auto it = compiled.find(r);
+      if (it == compiled.end()) it = compiled.emplace(r, std::regex(r)).first;
+      for (int i = 0; i < ncol(); i++) if (std::regex_match(cols[i].name, it->second)) push(i);
+    }
+    return out;
+  }
   int nactive() const
   {
     auto it = roles.find(L_SEL);
@@ -625,6 +643,125 @@ static void build_ops2()
 }
 
 
+
+// ------------------------------------------------------------------------------------------------------------
+// third part of the alphabet: DEGENERATE vector arguments (repeated element, literal + pattern matching it in both
+// orders, overlapping patterns, empty vector, valid + invalid elements, unsorted ranks). Lists of names are
+// documented (expandList) to designate each column once, in the order of first designation.
+static void build_ops3()
+{
+  auto add = [](const std::string& n, const std::string& k, bool s, std::function<void(Step&)> f) { OPS.push_back({n, k, s, f}); };
+  struct NL { const char* label; std::function<VectorString(const RefTable&)> mk; };
+  auto nm = [](const RefTable& m, int i) { return nameAt(m, i); };
+  std::vector<NL> lists = {
+    {"{name0,name1,name0}", [nm](const RefTable& m) { return VectorString{nm(m, 0), nm(m, 1), nm(m, 0)}; }},
+    {"{'x*',name of first x}", [](const RefTable& m) { VectorString v = {"x*"}; for (auto& c : m.cols) if (c.name[0] == 'x') { v.push_back(c.name); break; } return v; }},
+    {"{name of first x,'x*'}", [](const RefTable& m) { VectorString v; for (auto& c : m.cols) if (c.name[0] == 'x') { v.push_back(c.name); break; } v.push_back("x*"); return v; }},
+    {"{'x*','.*1'}", [](const RefTable&) { return VectorString{"x*", ".*1"}; }},
+    {"{}", [](const RefTable&) { return VectorString(); }},
+    {"{name1,'nosuchcolumn',name0}", [nm](const RefTable& m) { return VectorString{nm(m, 1), "nosuchcolumn", nm(m, 0)}; }},
+  };
+  for (auto& L : lists)
+  {
+    auto mk = L.mk;
+    add(std::string("setLocators(") + L.label + ",Z,0)", "setLocators[degenerate-list]", false, [mk](Step& s) {
+      VectorString l = mk(s.m);
+      std::vector<std::string> pl(l.begin(), l.end());
+      std::vector<int> idx = s.m.expand(pl), u;
+      for (int i : idx) u.push_back(s.m.cols[i].uid);
+      s.db->setLocators(l, ELoc::Z, 0, false);
+      if (!u.empty()) s.m.setRoles(u, L_Z, 0, false);
+    });
+    add(std::string("deleteColumns(") + L.label + ")", "deleteColumns[degenerate-list]", true, [mk](Step& s) {
+      VectorString l = mk(s.m);
+      std::vector<std::string> pl(l.begin(), l.end());
+      std::vector<int> idx = s.m.expand(pl), u;
+      for (int i : idx) u.push_back(s.m.cols[i].uid);
+      s.db->deleteColumns(l);
+      for (int x : u) s.m.delUid(x);
+    });
+  }
+  add("setLocators({'x*',name of first x},F,-1)", "setLocators[degenerate-list]", false, [](Step& s) {
+    VectorString l = {"x*"};
+    for (auto& c : s.m.cols) if (c.name[0] == 'x') { l.push_back(c.name); break; }
+    std::vector<std::string> pl(l.begin(), l.end());
+    std::vector<int> u; for (int i : s.m.expand(pl)) u.push_back(s.m.cols[i].uid);
+    for (int x : u) if (s.m.inRole(x, L_F)) s.tag = "[auto-rank,column-already-in-list]";
+    s.db->setLocators(l, ELoc::F, -1, false);
+    if (!u.empty()) s.m.setRoles(u, L_F, -1, false);
+  });
+  add("setName({name0,name0},'m')", "setName[list]", false, [](Step& s) { if (s.m.ncol() < 1) { s.disabled = true; return; } s.db->setName(VectorString{nameAt(s.m, 0), nameAt(s.m, 0)}, "m"); });
+  // ---- vectors of UIDs / column indices
+  add("setLocatorsByUID({2,2},X,0)", "setLocatorsByUID[repeated]", false, [](Step& s) {
+    for (int u : {2}) if (u < s.m.nuid && s.m.idxOfUid(u) < 0) s.tag = "[deleted-uid]";
+    s.db->setLocatorsByUID(VectorInt{2, 2}, ELoc::X, 0, false);
+    s.m.setRoles({2, 2}, L_X, 0, false);   // sequential assignments: the second one asks for a rank beyond the end = explicit gap
+  });
+  add("setLocatorsByUID({},Z,0)", "setLocatorsByUID", false, [](Step& s) { s.db->setLocatorsByUID(VectorInt(), ELoc::Z, 0, false); });
+  add("setLocatorsByColIdx({1,1},Z,0)", "setLocatorsByColIdx[repeated]", false, [](Step& s) {
+    s.db->setLocatorsByColIdx({1, 1}, ELoc::Z, 0, false);
+    int u = s.m.uidOfIdx(1);
+    s.m.setRoles({u, u}, L_Z, 0, false);
+  });
+  add("setLocatorsByColIdx({},Z,0)", "setLocatorsByColIdx", false, [](Step& s) { s.db->setLocatorsByColIdx(VectorInt(), ELoc::Z, 0, false); });
+  add("deleteColumnsByUID({1,1,99})", "deleteColumnsByUID", true, [](Step& s) { s.db->deleteColumnsByUID({1, 1, 99}); s.m.delUid(1); });
+  add("deleteColumnsByUID({})", "deleteColumnsByUID", false, [](Step& s) { s.db->deleteColumnsByUID(VectorInt()); });
+  add("deleteColumnsByColIdx({0,99,2})", "deleteColumnsByColIdx", true, [](Step& s) {
+    s.db->deleteColumnsByColIdx({0, 99, 2});
+    int u0 = s.m.uidOfIdx(0), u2 = s.m.uidOfIdx(2);
+    s.m.delUid(u2); s.m.delUid(u0);
+  });
+  add("deleteColumnsByColIdx({})", "deleteColumnsByColIdx", false, [](Step& s) { s.db->deleteColumnsByColIdx(VectorInt()); });
+  add("setColumnsByColIdx(tabs,{1,1})", "setColumnsByColIdx", false, [](Step& s) {
+    VectorDouble t = seqTab(2 * s.m.nech, 400.);
+    s.db->setColumnsByColIdx(t, {1, 1});
+    for (int e = 0; e < s.m.nech; e++) s.m.setc(1, e, t[s.m.nech + e]);   // written twice, in the order of the list
+  });
+  // ---- vectors of sample ranks
+  auto delSample = [](RefTable& m, int e) -> bool {
+    if (m.grid || e < 0 || e >= m.nech) return false;
+    for (auto& c : m.cols) { c.v.erase(c.v.begin() + e); c.unspec.erase(c.unspec.begin() + e); }
+    m.nech--;
+    return true;
+  };
+  add("deleteSamples({last,0}) [unsorted... given increasing]", "deleteSamples", false, [delSample](Step& s) {
+    if (s.m.nech < 2) { s.disabled = true; return; }
+    int last = s.m.nech - 1;
+    int r = s.db->deleteSamples({0, last});
+    bool ok = delSample(s.m, last) && delSample(s.m, 0);
+    if ((r == 0) != ok) s.bad = "returned " + std::to_string(r) + " but the deletion " + (ok ? "is valid" : "must be refused");
+  });
+  add("deleteSamples({0,99})", "deleteSamples", false, [delSample](Step& s) {
+    int r = s.db->deleteSamples({0, 99});
+    bool ok = delSample(s.m, 99) && delSample(s.m, 0);   // furthest first: refused at once, nothing deleted
+    if ((r == 0) != ok) s.bad = "returned " + std::to_string(r) + " but the deletion " + (ok ? "is valid" : "must be refused");
+  });
+  add("deleteSamples({})", "deleteSamples", false, [](Step& s) { int r = s.db->deleteSamples(VectorInt()); if (r != 0) s.bad = "returned " + std::to_string(r) + " for an empty list"; });
+  add("addSelectionByRanks({last,0,last},'selr')", "addSelectionByRanks", true, [](Step& s) {
+    if (s.m.nech < 1) { s.disabled = true; return; }
+    int last = s.m.nech - 1;
+    s.db->addSelectionByRanks({last, 0, last}, "selr");
+    s.m.addCols(1, 0., L_SEL, 0);
+    s.m.cols.back().v[0] = 1.; s.m.cols.back().v[last] = 1.;
+  });
+  add("setArrayVec({0,0},uid 1,{410,411})", "setArrayVec", false, [](Step& s) {
+    if (s.m.nech < 1) { s.disabled = true; return; }
+    s.db->setArrayVec({0, 0}, 1, {410., 411.});
+    s.m.setc(s.m.idxOfUid(1), 0, 411.);
+  });
+  // ---- lists whose repetition is not de-duplicated by a documented rule: the cells concerned are adopted
+  add("setValuesByNames({0},{name0,name0},{420,421})", "setValuesByNames[repeated]", false, [](Step& s) {
+    if (s.m.ncol() < 1 || s.m.nech < 1) { s.disabled = true; return; }
+    s.db->setValuesByNames({0}, {nameAt(s.m, 0), nameAt(s.m, 0)}, {420., 421.}, false);
+    s.m.adopt(0, 0);
+  });
+  add("setItem({0},{name1,name1},{{430},{431}})", "setItem[repeated]", false, [](Step& s) {
+    if (s.m.ncol() < 2 || s.m.nech < 1) { s.disabled = true; return; }
+    (void)s.db->setItem(VectorInt{0}, VectorString{nameAt(s.m, 1), nameAt(s.m, 1)}, VectorVectorDouble{{430.}, {431.}}, false);
+    s.m.adopt(1, 0);
+  });
+}
+
 // ------------------------------------------------------------------------------------------------------------
 // "observe" step: calls every public reader once, mid-history, so that any reader-side cache / lazily built index /
 // memoised rank is primed BEFORE the next mutation. It does not change the table (the model is untouched); the
@@ -978,6 +1115,38 @@ static std::string judge_accessors(const Db* db, RefTable& m, std::string& why)
       }
     }
   }
+
+  // ---- readers with degenerate lists of names: every column designated once, in the order of first designation
+  if (ncol > 1)
+  {
+    const std::string& n0 = m.cols[0].name; const std::string& nl = m.cols[ncol - 1].name;
+    struct DL { VectorString l; } dls[] = {{{nl, n0, nl}}, {{"*", n0}}, {{n0, "nosuchcolumn", "x*", nl}}};
+    for (auto& D : dls)
+    {
+      std::vector<std::string> pl(D.l.begin(), D.l.end());
+      std::vector<int> idx = m.expand(pl);
+      std::string lab; for (auto& x : D.l) lab += (lab.empty() ? "{" : ",") + std::string(x); lab += "}";
+      VectorString gn = db->getNames(D.l);
+      VectorInt gu = db->getUIDs(D.l), gc = db->getColIdxs(D.l);
+      bool ok = gn.size() == idx.size();
+      for (size_t k = 0; ok && k < idx.size(); k++) ok = gn[k] == m.cols[idx[k]].name;
+      if (!ok) ACC_FAIL("accessor-degenerate-list:getNames", "getNames(" << lab << ") returns " << gn.size() << " names; the list designates " << idx.size() << " distinct columns");
+      if (!idx.empty())
+      {
+        ok = gu.size() == idx.size() && gc.size() == idx.size();
+        for (size_t k = 0; ok && k < idx.size(); k++) ok = gu[k] == m.cols[idx[k]].uid && gc[k] == idx[k];
+        if (!ok) ACC_FAIL("accessor-degenerate-list:getUIDs", "getUIDs/getColIdxs(" << lab << ") = " << vstr(gu) << "/" << vstr(gc) << " ; the list designates columns " << vstr(idx));
+        if (!eqv(db->getColumns(D.l, false, false), cat(idx))) ACC_FAIL("accessor-degenerate-list:getColumns", "getColumns(" << lab << ") is not the " << idx.size() << " designated columns, each once");
+      }
+    }
+    if (!db->getUIDs(VectorString()).empty() || !db->getColumns(VectorString()).empty() || !db->getNamesByColIdx(VectorInt()).empty() || !db->getNamesByUID(VectorInt()).empty())
+      ACC_FAIL("accessor-degenerate-list:empty", "a reader given an empty list returns something");
+    VectorInt rep = {ncol - 1, 0, ncol - 1};
+    VectorString rn = db->getNamesByColIdx(rep);
+    VectorInt ru = db->getUIDsByColIdx(rep);
+    if (rn.size() != 3 || rn[0] != nl || rn[1] != n0 || rn[2] != nl || ru.size() != 3 || ru[0] != m.cols[ncol - 1].uid || ru[2] != ru[0])
+      ACC_FAIL("accessor-degenerate-list:ByColIdx", "getNamesByColIdx/getUIDsByColIdx({last,0,last}) do not return one entry per element");
+  }
   // ---- coordinates of a point Db = the columns holding the X roles
   if (!m.grid)
   {
@@ -1077,12 +1246,16 @@ static std::string describe(const History& h)
   return s;
 }
 
+static int NOPS3 = 1 << 30;  // first index of the degenerate-argument ops (build_ops3)
 static int NCORE = 0;  // ops [0,NCORE) = first half of the alphabet (build_ops), the rest = build_ops2
 // coreprefix > 0: the first 'coreprefix' positions of a history are restricted to the first half of the alphabet
 static void explore(Ctx& C, int start, int depth, int coreprefix = 0)
 {
   const char* startName[] = {"empty Db", "Db 2 samples x (x1,x2,z1)", "Db 2 samples x (rank,x1,x2,z1)", "DbGrid 2x2 (rank,x1,x2,z1)", "Db 3 samples x (rank,x1,sel[SEL],z1,w)"};
   bfs(C, (int)OPS.size(), depth, [&](const History& h) -> StepResult {
+    // quick tier: the degenerate-argument ops are explored as LAST step only (histories any^k . degenerate)
+    bool leafOnly = !C.thorough() && !h.empty() && h.back() >= NOPS3;
+    if (!C.thorough()) for (size_t i = 0; i + 1 < h.size(); i++) if (h[i] >= NOPS3) { StepResult r0; r0.enabled = false; r0.expand = false; return r0; }
     for (size_t i = 0; i < h.size() && (int)i < coreprefix; i++)
       if (h[i] >= NCORE && h[i] != OBS) { StepResult r0; r0.enabled = false; r0.expand = false; return r0; }
     RefTable m;
@@ -1107,7 +1280,8 @@ static void explore(Ctx& C, int start, int depth, int coreprefix = 0)
             if (m.cols[c].unspec[e]) { m.cols[c].v[e] = db->getValueByColIdx(e, c); m.cols[c].unspec[e] = 0; }
     }
     StepResult r;
-    r.key = Hash().u(state_key(db)).u(observed).h;
+    r.key = Hash().u(state_key(db)).u(observed).u(leafOnly).h;   // a leaf-only state never shadows the same state reached by an extendable history
+    if (leafOnly) r.expand = false;
     static std::unordered_set<uint64_t> apiJudged;
     uint64_t jk = Hash().s(C.cur_part).u(r.key).u(m.gap).h;
     bool deep = !apiJudged.count(jk);
@@ -1177,6 +1351,8 @@ VF_PART(outofrange)
     {"copyByCol(0,99)", [](Db* d) { d->copyByCol(0, 99); }},
     {"copyByUID(deleted uid,2)", [](Db* d) { d->copyByUID(0, 2); }},
     {"deleteSample(99)", [](Db* d) { d->deleteSample(99); }},
+    {"addSelectionByRanks({0,99})", [](Db* d) { Db* c = d->clone(); c->addSelectionByRanks({0, 99}, "selbad"); delete c; /* on a copy: only the memory safety is judged */ }},
+    {"deleteSamples({99,0})", [](Db* d) { d->deleteSamples({99, 0}); }},
     {"deleteColumnByColIdx(99)", [](Db* d) { d->deleteColumnByColIdx(99); }},
     {"setNameByColIdx(99,'q')", [](Db* d) { d->setNameByColIdx(99, "q"); }},
     {"setLocatorByColIdx(99,Z,0)", [](Db* d) { d->setLocatorByColIdx(99, ELoc::Z, 0); }},
@@ -1249,6 +1425,6 @@ VF_PART(db_sel) { explore(C, 4, 3); }
 
 int main(int argc, char** argv)
 {
-  if (getenv("C07_LISTOPS")) { build_ops(); NCORE = (int)OPS.size(); build_ops2(); for (size_t i = 0; i < OPS.size(); i++) printf("%zu %s\n", i, OPS[i].name.c_str()); return 0; }
-  return run_main(argc, argv, [](Ctx&) { silence(); build_ops(); NCORE = (int)OPS.size(); build_ops2(); }, [](Ctx& C) { write_states(C); });
+  if (getenv("C07_LISTOPS")) { build_ops(); NCORE = (int)OPS.size(); build_ops2(); build_ops3(); for (size_t i = 0; i < OPS.size(); i++) printf("%zu %s\n", i, OPS[i].name.c_str()); return 0; }
+  return run_main(argc, argv, [](Ctx&) { silence(); build_ops(); NCORE = (int)OPS.size(); build_ops2(); NOPS3 = (int)OPS.size(); build_ops3(); }, [](Ctx& C) { write_states(C); });
 }
